@@ -250,12 +250,7 @@ class Mirror:
         if code != ACCEPTED:
             return t
         sp2, g2 = new
-        if k == "NewCells":
-            n = op[2]
-            for d in self.subs(s):
-                if d != s and n in sp[d]["cells"] and sp[d]["cells"][n][1] \
-                        and self.first_definer("cells", n, self.mro(d)[1:], sp2) == s:
-                    t.append("D1"); break
+        # D1 (NewCells in an earlier base of a sub space that derives the name from a later base) is repaired in /repo
         # D2 / D2b (SetFormula reaching cells derived from another definer) and D33 (ChangeRef stopping at the first
         # overriding sub space) are repaired in /repo: their former triggers are generated
         if k in ("RemoveBases", "DelSpace") and self._d3(op, g2):
